@@ -69,17 +69,49 @@ def _bound_kind(f: FuncInfo, rd: ReachingDefs, at: ast.AST, e: ast.AST) -> Tuple
     return "mixed:" + ",".join(sorted(kinds)), texts
 
 
+class Vec(Stub):
+    """A 1-d array of numbers / truth values picked out of a bounds table (`bounds[[rows], col]`): element-wise comparisons."""
+
+    def __init__(self, xs):
+        self.xs = list(xs)
+
+    def _cmp(self, o, f):
+        ys = o.xs if isinstance(o, Vec) else [o] * len(self.xs)
+        return Vec([f(a, b) for a, b in zip(self.xs, ys)])
+
+    def __lt__(self, o): return self._cmp(o, lambda a, b: a < b)
+    def __le__(self, o): return self._cmp(o, lambda a, b: a <= b)
+    def __gt__(self, o): return self._cmp(o, lambda a, b: a > b)
+    def __ge__(self, o): return self._cmp(o, lambda a, b: a >= b)
+    def __invert__(self): return Vec([not a for a in self.xs])
+    def __iter__(self): return iter(self.xs)
+    def _abs_len(self): return len(self.xs)
+    def clip(self, lo=None, hi=None, **k): return Vec([min(max(a, lo) if lo is not None else a, hi) if hi is not None else (max(a, lo) if lo is not None else a) for a in self.xs])
+    def copy(self): return Vec(self.xs)
+
+    def __getitem__(self, k):
+        if isinstance(k, int):
+            return self.xs[k]
+        raise Unsupported("vector[...] with a key that is not a position")
+
+
 class Arr2(Stub):
     """A bounds table: rows [lo, hi].  Row reads hand out the row itself (stores through it are seen), row stores copy the values."""
 
     def __init__(self, rows):
         self.rows = [list(r) for r in rows]
 
+    @staticmethod
+    def _rowlist(k):
+        return isinstance(k, tuple) and len(k) == 2 and isinstance(k[0], (list, Vec)) and all(isinstance(x, int) and not isinstance(x, bool) for x in k[0]) and isinstance(k[1], int)
+
     def __getitem__(self, k):
         if isinstance(k, int):
             return self.rows[k]
         if isinstance(k, tuple) and len(k) == 2 and all(isinstance(x, int) for x in k):
             return self.rows[k[0]][k[1]]
+        if self._rowlist(k):                      # bounds[[rows], col]: that column of those rows
+            return Vec([self.rows[i][k[1]] for i in k[0]])
         raise Unsupported("bounds[...] with a key other than a row number or (row, column)")
 
     def __setitem__(self, k, v):
@@ -87,6 +119,12 @@ class Arr2(Stub):
             self.rows[k] = list(v)
         elif isinstance(k, tuple) and len(k) == 2 and all(isinstance(x, int) for x in k):
             self.rows[k[0]][k[1]] = v
+        elif self._rowlist(k):
+            vals = list(v) if isinstance(v, (Vec, list)) else [v] * len(list(k[0]))
+            if len(vals) != len(list(k[0])):
+                raise Unsupported("bounds[[rows], col] = ... with a value of another length")
+            for i, x in zip(k[0], vals):
+                self.rows[i][k[1]] = x
         else:
             raise Unsupported("bounds[...] = ... with a key other than a row number or (row, column)")
 
@@ -113,6 +151,29 @@ class _NPb(Stub):
     @staticmethod
     def array(x, **k):
         return Arr2(x) if isinstance(x, list) and x and isinstance(x[0], list) else x
+
+    @staticmethod
+    def where(cond, a, b):
+        if not isinstance(cond, Vec):
+            raise Unsupported("np.where with a condition that is not a vector of truth values")
+        av = a.xs if isinstance(a, Vec) else [a] * len(cond.xs)
+        bv = b.xs if isinstance(b, Vec) else [b] * len(cond.xs)
+        return Vec([x if c else y for c, x, y in zip(cond.xs, av, bv)])
+
+    @staticmethod
+    def maximum(a, b):
+        if isinstance(a, Vec) or isinstance(b, Vec):
+            n = len((a if isinstance(a, Vec) else b).xs)
+            av = a.xs if isinstance(a, Vec) else [a] * n
+            bv = b.xs if isinstance(b, Vec) else [b] * n
+            return Vec([max(x, y) for x, y in zip(av, bv)])
+        return max(a, b)
+
+    @staticmethod
+    def clip(x, lo, hi):
+        if isinstance(x, Vec):
+            return x.clip(lo, hi)
+        raise Unsupported("np.clip of something that is not a vector")
 
 
 def _fix_identical(b):
